@@ -328,14 +328,20 @@ def run_case(case, ctx):
         if okf:
             # observer k was constructed for instance k; relative to another instance l it may fall
             # anywhere, also within rounding distance of l's surface or axis: such pairs are not compared
+            from vf.props import c01 as _c01  # pylint: disable=import-outside-toplevel
+
             for l in range(n):
                 body_l = geom.body_from_spec(insts[l])
                 for k in range(n):
+                    pl = build.to_local(insts[l], obs[k])
                     if l != k:
-                        pl = build.to_local(insts[l], obs[k])
                         if float(body_l.dist(pl[None])[0]) < 1e-3 * body_l.L or \
                                 (hasattr(body_l, "r2") and np.hypot(pl[0], pl[1]) < 1e-3 * body_l.r2):
                             ref_full[l, k] = np.nan
+                    # pairs where the library's own accuracy band is wide (or C01 asserts nothing) are not compared either:
+                    # a batch and a single evaluation of an ill-conditioned value differ by as much as the band
+                    if cls in _c01.tolerances() and float(_c01.accuracy_band(cls, body_l, pl[None])[0]) > 1e-4:
+                        ref_full[l, k] = np.nan
             with np.errstate(invalid="ignore"):
                 scf = np.fmax(np.max(np.abs(ref_full), axis=-1, keepdims=True), np.max(fs) * 1e-6) * np.ones(3)
             sens_all = [magpy.Sensor(position=o) for o in obs]
